@@ -1,7 +1,7 @@
 from ast import Attribute, Subscript, Load, NodeVisitor
 
 from .compat import PY2
-from .scope import FuncScope, Flow, SourceScope, ClassScope
+from .scope import FuncScope, Flow, SourceScope, ClassScope, CompScope
 from .name import AssignedName, ImportedName
 from .util import (np, get_expr_end, get_indexes_for_target, visitor, get_any_marked_name)
 
@@ -300,11 +300,20 @@ class extract_visitor(NodeVisitor):
 
     def visit_ListComp(self, node):
         # type: (ast.ListComp | ast.GeneratorExp | ast.DictComp | ast.SetComp) -> None
-        p = cur = self.flow
-        for g in node.generators:
-            self.visit_in_flow(g.iter, p)
+        cur = self.flow
+        leaks = PY2 and type(node).__name__ == 'ListComp'
+        # the outermost iterable is evaluated in the enclosing scope, the
+        # rest in the scope of the comprehension
+        self.visit_in_flow(node.generators[0].iter, cur)
+        if leaks:
+            p = cur
+        else:
+            p = CompScope(cur.scope, self.top, cur).flow
+        for i, g in enumerate(node.generators):
+            if i:
+                self.visit_in_flow(g.iter, p)
             pp = p
-            p = self.make_flow('comp', [p])
+            p = self.top.add_flow(Flow('comp', p.scope, [p]))
             for nn, _idx in get_indexes_for_target(g.target, [], []):
                 name = nn  # type: ast.Name # type: ignore[assignment]
                 if isinstance(name, (Attribute, Subscript)):
@@ -323,7 +332,12 @@ class extract_visitor(NodeVisitor):
         if hasattr(node, 'key'):
             self.visit_in_flow(node.key, p)
 
-        self.flow = self.make_flow('comp-join', [cur, p])
+        if not leaks:
+            p.scope.flow = p
+        if isinstance(cur.scope, ClassScope):
+            self.flow = self.make_flow('comp-join', [cur])
+        else:
+            self.flow = self.make_flow('comp-join', [cur, p])
         self.flow.scope.flow = self.flow
 
     visit_GeneratorExp = visit_ListComp
@@ -371,8 +385,12 @@ class extract_visitor(NodeVisitor):
         # type: (ast.NamedExpr) -> None
         eend = get_expr_end(node.value)
         name = node.target
-        name.flow = self.flow  # type: ignore[attr-defined]
-        self.flow.add_name(AssignedName(name.id, eend, np(name), node.value))
+        flow = self.flow
+        while isinstance(flow.scope, CompScope):
+            # binds in the scope the comprehension is written in
+            flow = flow.scope.entry
+        name.flow = flow  # type: ignore[attr-defined]
+        flow.add_name(AssignedName(name.id, eend, np(name), node.value))
         self.generic_visit(node)
 
 
